@@ -182,9 +182,13 @@ def worker_main(mod_name, tier, seed, widx, nworkers, n_examples, outpath):
         if n_examples > 0:
             strat = mod.cases(tier)
 
+            # Hypothesis always starts a run with the simplest possible example; with 16 workers that would be 16 copies of
+            # the trivial case, so every worker generates one example more and does not judge its first one.
+            counter = {"n": 0}
+
             @hypothesis.seed(seed * 1000 + widx)
             @settings(
-                max_examples=n_examples,
+                max_examples=n_examples + 1,
                 database=None,
                 deadline=None,
                 derandomize=False,
@@ -194,6 +198,9 @@ def worker_main(mod_name, tier, seed, widx, nworkers, n_examples, outpath):
             )
             @given(strat)
             def run(case):
+                counter["n"] += 1
+                if counter["n"] == 1:
+                    return
                 handle(mod, case, stats, known)
 
             run()
